@@ -66,7 +66,7 @@ def jobs(tier):
     J.append(conc("1,0,0,0" if q else "2,0,0,0", hmap=1, init=4, min_partition_order=0, prog0=prog((K_RESIZE, 1)),
                   prog1=prog((K_LOOKUP, 1), (K_WALKALL, 0)), prog2=prog((K_DEL, 0)), **TWO))
     # lazy (chain length) resize by the worker thread while operations run
-    lz = dict(flags=1, hmap=1, ninit=3, init_keys=0x210)
+    lz = dict(flags=1, hmap=4, init=1, ninit=3, init_keys=0x210)    # hashes 1,3,5 in one bucket: the 4th distinct hash (key 3) queues a lazy grow
     J.append(conc("2,0,0,0" if q else "3,0,0,0", prog0=prog((K_ADD, 3)), prog1=prog((K_LOOKUP, 0), (K_WALKALL, 0)), **lz))
     J.append(conc("2,0,0,0", prog0=prog((K_ADD, 3), (K_DEL, 1)), prog1=prog((K_LOOKUP, 1), (K_LOOKUP, 2)), **lz))
     J.append(conc("1,1,0,0", prog0=prog((K_ADD, 3)), prog1=prog((K_LOOKUP, 0), (K_WALKALL, 0)), settle_end=0, **lz))
